@@ -13,7 +13,7 @@ cd $wt || exit 3
 # state: change applied?
 if git apply --check -R MUTANT.diff 2>/dev/null; then :; else echo "worktree does not have the change applied; applying"; git checkout -q -- . ; git apply MUTANT.diff || exit 3; fi
 build=fail; go build ./... >/dev/null 2>&1 && build=ok
-suite=FAILS; go test -vet=off -count=1 ./... > /tmp/mut/$id.suite.log 2>&1 && suite=passes
+suite=FAILS; go test -vet=off -count=1 $(go list ./... | grep -v "/demo") > /tmp/mut/$id.suite.log 2>&1 && suite=passes
 chmod +x demo/run.sh 2>/dev/null
 (cd demo && timeout 600 ./run.sh > /tmp/mut/$id.with.log 2>&1); with=$?
 git apply -R MUTANT.diff || exit 3
